@@ -22,9 +22,13 @@ Note(cl) == /\ verdict' = verdict \cup cl
             /\ firstbad' = IF cl # {} /\ firstbad = 0 THEN l ELSE firstbad
 Reject(cl) == Note(cl) /\ UNCHANGED mvars
 
+\* the node flows the enthalpy is carried by (subchannels and bypass cells)
+\* add up to the assembly flow: o.mSum = 2^24 x (sum of node flows / flow)
+FlowClauses(o) == IF o.mSum - 16777216 <= 4 /\ 16777216 - o.mSum <= 4 THEN {}
+                  ELSE {"NodeFlowsSumToAssemblyFlow"}
 TrStep0 == Live("Step0") /\ UNCHANGED mvars /\ Note(IF k = 1 /\ todo = Asm THEN {} ELSE {"StepOrder"}) /\ Step
 TrAsm == /\ Live("AsmStep")
-         /\ IF Ev.a \in Asm THEN AsmUpdate(Ev) /\ Note(AsmClauses(Ev))
+         /\ IF Ev.a \in Asm THEN AsmUpdate(Ev) /\ Note(AsmClauses(Ev) \cup FlowClauses(Ev))
             ELSE Reject({"StepOrder"})
          /\ Step
 TrGap == /\ Live("Gap")
